@@ -115,6 +115,42 @@ void vf::run_case(Src &s, Ctx &c)
     {
         throw Skip{std::string("problem construction rejected: ") + e.what()};
     }
+#ifdef VF_C01P
+    // Configuration companion: a third of the normal single-goal problems get their goal walled in (valid, but unreachable): the planner
+    // searches until the budget is spent and what it reports - TIMEOUT or an approximate solution - comes from a long search.
+    if (P->scenario == SC_NORMAL && P->goals.size() == 1 && P->goalOk[0] && s.chance(96))
+    {
+        double gx, gy;
+        P->ps.xy(P->goals[0], gx, gy);
+        const double in = s.real(0.5, 0.9), th = s.real(0.25, 0.5), out = in + th;
+        bool clash = false;
+        for (auto *st : P->starts)
+        {
+            double x, y;
+            P->ps.xy(st, x, y);
+            if (std::fabs(x - gx) < out + 0.3 && std::fabs(y - gy) < out + 0.3)
+                clash = true;
+        }
+        if (!clash)
+        {
+            auto box = [&](double x0, double y0, double x1, double y1)
+            {
+                Obstacle o{};
+                o.ball = false;
+                o.x0 = x0;
+                o.y0 = y0;
+                o.x1 = x1;
+                o.y1 = y1;
+                P->env.obs.push_back(o);
+            };
+            box(gx - out, gy - out, gx + out, gy - in);
+            box(gx - out, gy + in, gx + out, gy + out);
+            box(gx - out, gy - in, gx - in, gy + in);
+            box(gx + in, gy - in, gx + out, gy + in);
+            c.count("goal:walled-in");
+        }
+    }
+#endif
     // evaluation budget: log-uniform, scaled per planner
     double b = s.weighted({1, 8}) == 0 ? 0 : std::exp(s.real(0, std::log(4000.0)));
     long budget = (long)(b * pi.budgetScale);
@@ -136,7 +172,11 @@ void vf::run_case(Src &s, Ctx &c)
     std::string tuned;
     try
     {
+#ifdef VF_C01P
+        tuned = tuneParams(s, pl, 256, 128);  // every case is tuned, every declared switch / numeric parameter with probability 1/2
+#else
         tuned = tuneParams(s, pl);
+#endif
     }
     catch (const ompl::Exception &e)
     {
@@ -155,7 +195,11 @@ void vf::run_case(Src &s, Ctx &c)
         c.count("schedule:" + std::string(mode == 0 ? "undisturbed" : mode == 1 ? "yield-half" : mode == 2 ? "short-sleeps" : "yield-always+ms-sleeps"));
     }
 #endif
+#ifdef VF_C01P
+    if (s.chance(150))
+#else
     if (s.chance(100))
+#endif
     {
         budget = std::max(budget, (long)(s.real(1000, 4000) * pi.budgetScale));
         c.count("budget:boosted");
